@@ -21,6 +21,12 @@ def spec_of(init):
         # third core, flats up; the fuel block carries a blueprint pin lattice (multi-index pins);
         # the plenum block gets an automatic pin grid (multi-index clad/gap + free-coordinate duct)
         s = build.hex_spec(pins=True, bond=True, sfp_contents={(0, 0): "IC"})
+        # the centre site of the pin lattice holds an instrument pin: a lattice component on exactly
+        # ONE site (multi-index location of length 1) next to the six-site fuel/bond/clad
+        s["grids"]["pins"]["contents"][(0, 0)] = "I"
+        comps = s["blocks"]["fuel"]["components"]
+        at = [c["name"] for c in comps].index("coolant")
+        comps.insert(at, build.comp("inst", "Circle", "HT9", 25.0, 450.0, id=0.0, od=0.5, latticeIDs=["I"]))
     elif fam == "hexfullcu":
         # two pool assemblies: an even-sized pool grid is not through-centre, i.e. has an offset
         s = build.hex_spec(third=False, cornersUp=True, sfp_contents={(0, 0): "IC", (1, 0): "OC"})
@@ -131,10 +137,21 @@ PARAM_OPS = [
     ["p", "B0", "mgFlux", ["arr", [1.0e13, 2.5e12, 3.0]]],
     ["p", "B0", "pointsCornerFastFluxFr", ["arr", [[1.0, 2.0, 3.0], [4.0, 5.0, 6.5]]]],
     ["ragged", "mgFluxGamma", [["B0", [1.0, 2.0, 3.0]], ["B1", [4.0, 5.0]]]],
+    # ragged columns whose entries are 2-D arrays of differing first dimension (pins x groups), the
+    # larger ones on objects that are not the last of their class; the other objects hold None
+    ["ragged", "pinMgFluxes", [["B0", [[1.0, 2.0], [3.0, 4.0], [5.0, 6.0]]], ["B1", [[7.0, 8.0], [9.0, 10.0]]], ["B2", [[11.0, 12.0]]]]],
+    ["ragged", "detailedNDens", [["A0", [[1.0e-3, 2.0e-3], [3.0e-3, 4.0e-3], [5.0e-3, 6.0e-3]]], ["A2", [[7.0e-3, 8.0e-3], [9.0e-3, 1.0e-2]]], ["A1", [[1.1e-2, 1.2e-2]]]]],
+    ["ragged", "pinNDens", [["K0.fuel", [[1.0, 2.0, 3.0], [4.0, 5.0, 6.0]]], ["K0.clad", [[7.0, 8.0, 9.0]]], ["K2.fuel", [[10.0, 11.0, 12.0], [13.0, 14.0, 15.0], [16.0, 17.0, 18.0]]]]],
+    # 1-D ragged on assemblies and components
+    ["ragged", "powerDecay", [["A0", [1.0, 0.5, 0.25]], ["A1", [2.0, 1.0]]]],
+    ["ragged", "pinPercentBu", [["K0.clad", [0.5, 0.75, 1.0]], ["K2.fuel", [1.25, 1.5]], ["K2.clad", [2.0]]]],
+    # every object of the class holds a 2-D array (no None): rows cycle 3, 1, 2, ... in tree order
+    ["raggedall", "B0", "pinMgFluxes", 2],
+    ["raggedall", "K0.fuel", "detailedNDens", 3],
     ["p", "B1", "power", None],
     # dict: the column format holds {str: float} dictionaries when every object of the class has
     # one (union of keys, NaN-filled), so every block gets one and B0 gets an extra key
-    ["pdict", "B0", "pinLocation", {"a": 1.5, "b": 2.5}, {"a": 1.0}],
+    ["pdict", "B0", "reactionRates", {"nG": 1.5, "nF": 2.5}, {"nG": 1.0}],
     # Component: float, no-default float, no-default str, array
     ["p", "K0.clad", "percentBu", 1.75],
     ["p", "K0.fuel", "buRate", 0.0625],
@@ -167,11 +184,8 @@ STATE_OPS = [
 # sub-alphabets for the deeper levels: one parameter assignment per object class / column format
 # plus every structural operation
 SUB2 = [
-    ["p", "C", "betaComponents"],
-    ["p", "A1", "notes"],
     ["p", "B0", "mgFlux"],
-    ["ragged", "mgFluxGamma"],
-    ["p", "B1", "power"],
+    ["ragged", "pinMgFluxes"],
     ["p", "K0.fuel", "pinPercentBu"],
     ["nd", "K0.fuel", "PU239"],
     ["temp", "K0.fuel"],
@@ -181,14 +195,13 @@ SUB2 = [
     ["coord"],
     ["swap"],
     ["rot", "A0"],
-    ["rot", "A1"],
     ["discharge"],
     ["height"],
     ["pitch"],
     ["advance"],
     ["full"],
 ]
-SUB3 = [["p", "B0", "mgFlux"], ["ragged", "mgFluxGamma"], ["nd", "K0.fuel", "PU239"], ["temp", "K0.fuel"], ["dim", "K0.clad"], ["link"], ["coord"], ["swap"], ["rot", "A0"], ["discharge"], ["height"], ["pitch"], ["advance"], ["full"]]
+SUB3 = [["p", "B0", "mgFlux"], ["ragged", "pinMgFluxes"], ["nd", "K0.fuel", "PU239"], ["temp", "K0.fuel"], ["dim", "K0.clad"], ["link"], ["coord"], ["swap"], ["rot", "A0"], ["discharge"], ["height"], ["pitch"], ["advance"], ["full"]]
 
 
 def _in(op, sub):
@@ -250,7 +263,9 @@ def _alphabet0(init):
                 o = ["coord", "K0.duct", 0.5, -0.25, 0.0]
         if fam.startswith("cart") and o[0] == "rot":
             continue  # CartesianBlock.rotate is not implemented
-        if fam == "trz":
+        if fam == "trz" and o[0] == "ragged":
+            o = [o[0], o[1], [[{"K0.clad": "K0.coolant", "K2.clad": "K2.coolant"}.get(sel, sel), v] for sel, v in o[2]]]
+        elif fam == "trz":
             for k in (repr(o[:3]), repr(o[:2]), o[0]):
                 if k in _TRZ:
                     o = _TRZ[k]
@@ -331,6 +346,11 @@ def apply(r, cs, tg, op):
     from armi.reactor import grids
 
     k = op[0]
+    if k in ("p", "pdict", "ragged", "raggedall"):
+        # vacuity guard: a parameter operation must target a parameter the database stores
+        for sel, name in [(x[0], op[1]) for x in op[2]] if k == "ragged" else [(op[1], op[2])]:
+            if not tg[sel].p.paramDefs[name].saveToDB:
+                raise RuntimeError("c04 alphabet: %s.%s is not a persistent parameter" % (sel, name))
     if k == "p":
         o = tg[op[1]]
         o.p[op[2]] = _value(o, op[2], op[3])
@@ -338,6 +358,12 @@ def apply(r, cs, tg, op):
         o = tg[op[1]]
         for x in r.iterChildren(deep=True, predicate=lambda c: type(c) is type(o)):
             x.p[op[2]] = dict(op[3] if x is o else op[4])
+    elif k == "raggedall":
+        o = tg[op[1]]
+        objs = list(r.iterChildren(deep=True, predicate=lambda c: type(c) is type(o)))
+        for n, x in enumerate(objs):
+            rows = (3, 1, 2)[n % 3]
+            x.p[op[2]] = np.array([[float(100 * n + 10 * i + j) for j in range(op[3])] for i in range(rows)])
     elif k == "ragged":
         for sel, vals in op[2]:
             tg[sel].p[op[1]] = np.array(vals)
